@@ -18,21 +18,26 @@ def rmask(ns, ranks, pred):
 G3_ASC  = rmask(3, [0, 2], lambda s, p, ch: s == 0 or ch[0] < ch[1])        # g(c,d)->p with c < d
 G3_DIAG = rmask(3, [0, 2], lambda s, p, ch: s == 0 or ch[0] == ch[1])       # g(c,c)->p
 HEAVY = {'_heavy': 1, '_mem_gb': 16, '_time': 2400}
-DOWN_Q = [U(2, [0, 1], DIR=0), U(2, [0, 0, 1], DIR=0), U(2, [0, 2], DIR=0), U(2, [1, 2], DIR=0), U(3, [0, 1], DIR=0), U(2, [0, 1, 2], DIR=0)]
-UP_Q   = [U(2, [0, 1], DIR=1), U(2, [0, 0, 1], DIR=1), U(2, [0, 2], DIR=1), U(2, [0, 1, 1], DIR=1), U(3, [0, 1], DIR=1), U(2, [0, 0, 2], DIR=1)]
-DOWN_T = DOWN_Q + [U(2, [0, 0, 1, 2], DIR=0), U(3, [0, 0, 1], DIR=0), U(3, [0, 2], DIR=0, RMASK=G3_ASC), U(3, [0, 2], DIR=0, RMASK=G3_DIAG)]
+def CLI(ns, ranks, rename, **kw):
+    # the path of `vata sim`: arbitrary (sparse) concrete numbers, ReindexStates first, its state count passed on
+    return U(ns, ranks, VIA_REINDEX=None, RENAME='{%s}' % ','.join(str(x) for x in rename), **kw)
+DOWN_Q = [U(2, [0, 1], DIR=0), U(2, [0, 0, 1], DIR=0), U(2, [0, 2], DIR=0), U(2, [1, 2], DIR=0), U(3, [0, 1], DIR=0), U(2, [0, 1, 2], DIR=0),
+          CLI(2, [0, 2], [6, 1], DIR=0), CLI(3, [0, 1], [7, 0, 3], DIR=0, PERM=0)]
+UP_Q   = [U(2, [0, 1], DIR=1), U(2, [0, 0, 1], DIR=1), U(2, [0, 2], DIR=1), U(2, [0, 1, 1], DIR=1), U(3, [0, 1], DIR=1), U(2, [0, 0, 2], DIR=1),
+          CLI(2, [0, 2], [6, 1], DIR=1), CLI(3, [0, 1], [7, 0, 3], DIR=1, PERM=0)]
+DOWN_T = DOWN_Q + [CLI(2, [0, 1, 2], [9, 4], DIR=0, PERM=0), U(2, [0, 0, 1, 2], DIR=0), U(3, [0, 0, 1], DIR=0), U(3, [0, 2], DIR=0, RMASK=G3_ASC), U(3, [0, 2], DIR=0, RMASK=G3_DIAG)]
 # upward with 3 states and a binary symbol: concrete numberings (PERMFIX = index of the permutation), because the symbolic
 # permutation makes the hash of TranslateUpward::Env symbolic and the engine then needs the SMT solver for every bucket index
-UP_T   = UP_Q + [U(2, [0, 1, 2], DIR=1, **HEAVY), U(3, [0, 0, 1], DIR=1),
+UP_T   = UP_Q + [CLI(2, [0, 0, 2], [9, 4], DIR=1, PERM=0), U(2, [0, 1, 2], DIR=1, **HEAVY), U(3, [0, 0, 1], DIR=1),
                  U(3, [0, 2], DIR=1, RMASK=G3_ASC, PERMFIX=3, **HEAVY), U(3, [0, 2], DIR=1, RMASK=G3_DIAG, PERMFIX=0, **HEAVY), U(3, [0, 2], DIR=1, RMASK=G3_DIAG, PERMFIX=4, **HEAVY)]
 
 CHECKS = {
  'C04': {
   'level': 'model_checking',
-  'explanation': 'ExplicitTreeAut::ComputeSimulation(SimParam{TA_DOWNWARD | TA_UPWARD, numStates = n}) executed symbolically on every automaton whose rules are drawn from the rule universe of the configuration (presence bit per rule, finality bit per state), built through AddTransition/SetStateFinal after renaming the states by a symbolic permutation of 0..n-1; the returned DiscontBinaryRelation is read with get(x,y) for all states x,y of the automaton and compared with the greatest downward / upward simulation computed by a naive greatest-fixpoint oracle of the definition on the un-renamed automaton (transported along the permutation); reflexivity and transitivity of the result are checked separately. Upward: inputs restricted (vs_assume) to automata in which all n states are useful.',
-  'bounds': {'quick': 'automata over 2 states with alphabets {a/0,f/1}, {a/0,b/0,f/1}, {a/0,g/2}, and downward {f/1,g/2}, {a/0,f/1,g/2}, upward {a/0,f/1,h/1}, {a/0,b/0,g/2}; over 3 states with {a/0,f/1}; all rule subsets, all final sets, all 2 resp. 6 numberings of the states (9..18 free bits per query)',
+  'explanation': 'ExplicitTreeAut::ComputeSimulation(SimParam{TA_DOWNWARD | TA_UPWARD, numStates = n}) executed symbolically on every automaton whose rules are drawn from the rule universe of the configuration (presence bit per rule, finality bit per state), built through AddTransition/SetStateFinal after renaming the states by a symbolic permutation of 0..n-1; the returned DiscontBinaryRelation is read with get(x,y) for all states x,y of the automaton and compared with the greatest downward / upward simulation computed by a naive greatest-fixpoint oracle of the definition on the un-renamed automaton (transported along the permutation); reflexivity and transitivity of the result are checked separately. The VIA_REINDEX configurations follow `vata sim` (cli/operations.hh): the automaton is built with sparse numbers, renumbered by ReindexStates with a weak translator whose counter is passed as the number of states, and the relation is read at the translated numbers. Upward: inputs restricted (vs_assume) to automata in which all n states are useful.',
+  'bounds': {'quick': 'automata over 2 states with alphabets {a/0,f/1}, {a/0,b/0,f/1}, {a/0,g/2}, and downward {f/1,g/2}, {a/0,f/1,g/2}, upward {a/0,f/1,h/1}, {a/0,b/0,g/2}; over 3 states with {a/0,f/1}; all rule subsets, all final sets, all 2 resp. 6 numberings of the states; the `vata sim` path (sparse numbers {6,1} / {7,0,3}, ReindexStates first) on 2 x {a/0,g/2} and 3 x {a/0,f/1} in both directions (9..18 free bits per query)',
              'thorough': 'as quick plus downward: 2 x {a/0,b/0,f/1,g/2}, 3 x {a/0,b/0,f/1}, two sub-universes of 3 x {a/0,g/2} with 9 binary rules each (all 6 numberings); upward: 2 x {a/0,f/1,g/2}, 3 x {a/0,b/0,f/1}, the same two 3-state sub-universes with a binary symbol under three concrete numberings'},
-  'outside': 'more than 3 states, rank > 2, 3 states together with a binary symbol outside the listed 9-rule sub-universes (thorough tier only), alphabets that use one symbol with two different ranks (the LTS encoding inlines unary rules), numStates different from the number of states, state numbers >= numStates (sparse numberings: see C05 for Reduce), upward simulation of automata with useless states (not claimed by the property)',
+  'outside': 'more than 3 states, rank > 2, 3 states together with a binary symbol outside the listed 9-rule sub-universes (thorough tier only), alphabets that use one symbol with two different ranks (the LTS encoding inlines unary rules), numStates different from the number of states, state numbers >= numStates without the ReindexStates step of the CLI (sparse numberings of Reduce: see C05), upward simulation of automata with useless states (not claimed by the property)',
   'assumptions': ['upward: every state of the automaton is useful (vs_assume on the oracle mask usefulStates)', 'get(x,y) is only called for numbers x,y that occur in the automaton (parent, child or final); for other numbers the relation throws, which is outside the property'],
   'harnesses': [
     {'name': 'down', 'src': 'harness/C04/sim.cc', 'tus': TREE_INCL,
